@@ -150,6 +150,8 @@ pub fn after_step(drv: &mut Drv, w: &mut World, vd: &mut Verdicts, desc: &str) {
     let mut items: Vec<String> = Vec::new();
     let mut wants: Vec<String> = Vec::new();
     if let Ok(f) = w.free() { items.push("free".to_string()); wants.push(format!("ok {}", f)); }
+    // the total reader of Model/Read/ProdosT.lean (the one theorems can speak about) agrees with the group's reader
+    items.push("readers".to_string()); wants.push("ok".to_string());
     let mut dirs: Vec<String> = vec!["/".to_string()];
     dirs.extend(w.dirs.iter().cloned());
     for d in dirs {
